@@ -120,8 +120,11 @@ def bounded(ctx):
 
 
 def lit(res):
+    import math
     if 'exc' in res:
         return '(URaise %s)' % EXC.get(res['exc'], 'InternalErr')
+    if res.get('kind') in ('num', 'qty') and not all(math.isfinite(x) for x in [res['v']] + list(res.get('exps') or [])):
+        return '(URaise InternalErr)'       # inf / nan is never what the model gives: shows up as a mismatch
     if res['kind'] == 'num':
         return '(UOk (Num %s))' % q(res['v'])
     if res['kind'] == 'qty':
